@@ -384,8 +384,8 @@ def _do_project(ctx, pi, strace_ok):
             if len(t) == 4:
                 P.afile[t[3]] = t[0]
         for state in STATES:
-            if ctx.quick() and state == 'full' and cfgname != 'j1':
-                continue   # quick tier: the fully cached start state is enumerated for -j1 only
+            if ctx.quick() and cfgname != 'j1' and (state == 'full' or (state == 'stale' and pi >= 1)):
+                continue   # quick tier: -j1 gets all start states; thread/process fresh (+ stale on project 0)
             statedir = os.path.join(P.dir, 'state_%s_%s' % (cfgname, state))
             if not _mkstate(P, cfgname, cfgargs, state, statedir):
                 ctx.count('skipped', 'state-setup-failed:%s:%s' % (cfgname, state))
@@ -496,6 +496,6 @@ def run(ctx):
     if not ctx.quick() and not strace_ok:
         ctx.assumptions.append('strace write injection unavailable: write-syscall tier skipped')
     _witness(ctx)
-    for pi in range(ctx.n(2, 24)):
+    for pi in range(ctx.n(2, 20)):
         _do_project(ctx, pi, strace_ok)
 
